@@ -150,7 +150,7 @@ func applyLayout(kind string, text []byte, l Layout, recLines []int) []byte {
 		}
 		buf.Write(x.b)
 		if l.TrailRate > 0 && r.Intn(l.TrailRate) == 0 {
-			buf.WriteString([]string{" ", "\t", "  \t "}[r.Intn(3)])
+			buf.WriteString([]string{" ", "\t", "  \t ", " ", "\t", " \v", "\f", "\t\r"}[r.Intn(8)]) // "whitespace": mostly blanks, sometimes VT/FF/CR
 		}
 		if i == len(out)-1 && l.NoFinalNewline {
 			break
